@@ -17,6 +17,9 @@ def terminates(stmts):
     return False
 
 
+RAISE_GUARDS = set()
+
+
 def path_conditions(fn):
     """Map id(stmt) -> tuple of (test_node, polarity) that hold when the statement executes
     (if/elif/else nesting plus early exits)."""
@@ -30,6 +33,8 @@ def path_conditions(fn):
                 rec(st.body, conds + ((st.test, True),))
                 rec(st.orelse, conds + ((st.test, False),))
                 if terminates(st.body) and not terminates(st.orelse):
+                    if isinstance(st.body[-1], ast.Raise) and not st.orelse:
+                        RAISE_GUARDS.add(id(st.test))  # validation guard: not part of any dispatch
                     conds = conds + ((st.test, False),)
                 elif st.orelse and terminates(st.orelse) and not terminates(st.body):
                     conds = conds + ((st.test, True),)
@@ -107,6 +112,7 @@ def classify_coord_pred(test, var_names=None):
 def effective_branch(conds):
     """From a path condition decide which assembly the branch is for:
     'lincomb' | 'cartesian' | 'spherical' | 'mix' | None (unrecognised)."""
+    conds = [(t, pol) for t, pol in conds if not (id(t) in RAISE_GUARDS and not pol)]
     pos = [classify_coord_pred(t) for t, pol in conds if pol]
     neg = [classify_coord_pred(t) for t, pol in conds if not pol]
     if None in pos or None in neg:
